@@ -612,8 +612,10 @@ AllPhasesOK(pr) == \A j \in 1..NPhases(pr) : AllOK(pr, j)
 \* keys the pass saw under the owner's control (for delegated phases: as reported by the phase read in this pass)
 SeenControlled(pr) ==
     { k \in Keys : pr.obs[k].valid /\ pr.obs[k].present /\ pr.obs[k].ctrl /\ k \in ListedObjKeys(pr) /\ ~IsDelegatedKey(pr, k) }
-    \cup UNION { IF IsSetActor(pr.actor) /\ IsDelegated(pr, j) /\ pr.reads[pr.snap.cr.phases[j].phaseKey].valid
-                   THEN Range(pr.reads[pr.snap.cr.phases[j].phaseKey].o.cr.controllerOf) ELSE {}
+    \* (the phase loop's read of the phase object, i.e. the FIRST read in the pass: a later read for the Paused condition
+    \*  may already find it changed or gone)
+    \cup UNION { IF IsSetActor(pr.actor) /\ IsDelegated(pr, j) /\ pr.phfirst[pr.snap.cr.phases[j].phaseKey].valid
+                   THEN Range(pr.phfirst[pr.snap.cr.phases[j].phaseKey].o.cr.controllerOf) ELSE {}
                  : j \in 1..NPhases(pr) }
 
 BodyCOf == Range(W.args.body.cr.controllerOf)
@@ -983,6 +985,18 @@ Inv_C15_PhaseObjectFaithful ==
           /\ W.args.body.cr.class = PR.snap.cr.phases[j].class
           /\ IsControllerL(PR.oid, PR.ouid, W.args.body.owners)
           /\ PR.reads[W.key].valid /\ ~PR.reads[W.key].o.exists
+
+\* C15: status.remotePhases names the phase objects that exist: the entry of a phase object the pass has read carries
+\* that object's uid (a phase object re-created under the same name gets its new uid recorded) - successor revisions
+\* resolve "controlled by the previous revision" through these entries
+Inv_C15_RemotePhaseRefsCurrent ==
+    (StatusEv /\ IsSetActor(W.actor) /\ Rollout(PR) /\ W.res = "ok")
+    => \A j \in 1..NPhases(PR) :
+         IsDelegated(PR, j) =>
+           LET k == PR.snap.cr.phases[j].phaseKey IN
+           (k \in Keys /\ PR.phfirst[k].valid /\ PR.phfirst[k].o.exists)
+           => \A i \in DOMAIN W.args.body.cr.remotePhases :
+                W.args.body.cr.remotePhases[i].id = PR.phfirst[k].o.oid => W.args.body.cr.remotePhases[i].uid = PR.phfirst[k].o.uid
 
 Inv_C15_PhaseObjectLifetime ==
     (CtlWrite /\ ~W.dry /\ IsSetActor(W.actor) /\ W.ev = "Delete" /\ W.pre.kind \in {"ObjectSetPhase", "ClusterObjectSetPhase"})
